@@ -8,9 +8,11 @@ import Driver.Disc
 import Driver.Errs
 import Driver.Seeds
 import Driver.ListView
+import Driver.Tlv
 
 structure DState where
   lv : Driver.LvD.St := none
+  tlv : Driver.TlvD.St := none
 
 def stateless (toks : List String) : Option String :=
   Driver.Tok.handle toks <|> Driver.PodD.handle toks <|> Driver.DiscD.handle toks <|>
@@ -23,7 +25,10 @@ def dispatch (st : DState) (line : String) : DState × String :=
   | none =>
     match Driver.LvD.handle st.lv toks with
     | some (lv', s) => ({ st with lv := lv' }, s)
-    | none => (st, "bad-op")
+    | none =>
+      match Driver.TlvD.handle st.tlv toks with
+      | some (t', s) => ({ st with tlv := t' }, s)
+      | none => (st, "bad-op")
 
 partial def loop (h : IO.FS.Stream) (out : IO.FS.Stream) (st : DState) : IO Unit := do
   let line ← h.getLine
